@@ -88,6 +88,11 @@ def gen_cases(ctx):
         events = evsubsets[i % len(evsubsets)] if i < 2 * len(evsubsets) else rng.sample(list(KNAMES), rng.randint(1, 4))
         ops = []
         alive = set(files)
+        if i in (1, 2):
+            # the same operation on the same file several times in a row: later events must still be served
+            cases.append({"id": len(cases), "kind": "history", "dirs": ["sub"], "files": files, "inc": inc, "exc": exc, "events": events if i == 2 else [],
+                          "ops": [["write", "w1.txt"], ["write", "w1.txt"], ["chmod", "w2.txt"], ["chmod", "w2.txt"], ["write", "w1.txt"]]})
+            continue
         for _ in range(rng.randint(2, 6) if i else 6):
             cand = sorted(alive)
             if not cand:
@@ -236,10 +241,13 @@ def run(ctx):
             selected = {"w1.txt", "w2.txt", "sub/w3.txt"}
             alive = set(c["files"])
             seen_paths = {p for _, p in r["events"]}
+            done = {}
             for op, f in c["ops"]:
                 if f in alive and f in selected:
                     prim = {"write": "WRITE", "chmod": "CHMOD", "remove": "REMOVE", "rename": "RENAME"}[op]
-                    if not any(k == prim and p == f for k, p in r["events"]):
+                    done[(prim, f)] = done.get((prim, f), 0) + 1
+                    # operations are 2.2 s apart and the loop takes one event per second: every one of them is delivered on its own
+                    if sum(1 for k, p in r["events"] if k == prim and p == f) < done[(prim, f)]:
                         res.violations.append({"class": None, "what": "an operation (%s) on an observed path produced no %s event: the path is not observed" % (op, prim),
                                                "case": {k: v for k, v in c.items() if k != "_obs"}, "observed": c["_obs"]})
                         break
